@@ -288,10 +288,14 @@ pub async fn copy_bidi(ctx: ContextRef, params: &IoParams) -> Result<(), Error> 
             {
                 let craw = into_owned_fd(client);
                 let sraw = into_owned_fd(server);
-                csrc.rawfd = Some(AsyncFd::new(craw.try_clone().unwrap()).unwrap());
-                cdst.rawfd = Some(AsyncFd::new(craw).unwrap());
-                ssrc.rawfd = Some(AsyncFd::new(sraw.try_clone().unwrap()).unwrap());
-                sdst.rawfd = Some(AsyncFd::new(sraw).unwrap());
+                // duplicating a descriptor fails when the process has run out of them: an error of this
+                // tunnel, not of the process
+                let cdup = craw.try_clone().context("dup client socket")?;
+                let sdup = sraw.try_clone().context("dup server socket")?;
+                csrc.rawfd = Some(AsyncFd::new(cdup).context("register client socket")?);
+                cdst.rawfd = Some(AsyncFd::new(craw).context("register client socket")?);
+                ssrc.rawfd = Some(AsyncFd::new(sdup).context("register server socket")?);
+                sdst.rawfd = Some(AsyncFd::new(sraw).context("register server socket")?);
             }
         } else {
             let (csr, csw) = tokio::io::split(client);
